@@ -189,10 +189,14 @@ def exec_op(rec, st, op, k, arg, blockscan):
         return k
     if not rec.failed:
         rec.state(k)
+        # ... and every other live cursor must still be where it was (copies share nothing)
+        for x in st["live"]:
+            if x != k and not rec.failed:
+                rec.state(x)
     return k
 
 
-def run_program(rec, m, rng, nsteps, thresholds=(0,), allow_reset=True, blockscan=False, maxid=50, hot=()):
+def run_program(rec, m, rng, nsteps, thresholds=(0,), allow_reset=True, blockscan=False, maxid=50, hot=(), qbias=0.0):
     """Random program over matcher m (and copies / replacements); the steps taken are
     kept in rec.program so that the same program can be re-executed (reexecute)."""
     k0 = rec.new(m)
@@ -200,6 +204,18 @@ def run_program(rec, m, rng, nsteps, thresholds=(0,), allow_reset=True, blocksca
         return
     st = {"live": [k0], "replaced": set(), "nimpl": len(rec.notimpl)}
     exec_op(rec, st, "start", k0, rng.random() < 0.3, blockscan)
+    if allow_reset and rng.random() < 0.3 and not rec.failed and m.is_active():
+        # aliasing prelude: advance, copy, then rewind and move original and copy independently
+        exec_op(rec, st, "skip_to", k0, int(rng.randrange(0, maxid + 1)), blockscan)
+        if not rec.failed and k0 in st["live"]:
+            exec_op(rec, st, "copy", k0, None, blockscan)
+            for k in list(st["live"]):
+                if rec.failed or k not in st["live"]:
+                    break
+                exec_op(rec, st, "reset", k, None, blockscan)
+                for _ in range(rng.randrange(0, 3)):
+                    if not rec.failed and k in st["live"] and rec.objs[k].is_active():
+                        exec_op(rec, st, "next", k, None, blockscan)
     for _ in range(nsteps):
         if rec.failed or not st["live"]:
             return
@@ -207,7 +223,13 @@ def run_program(rec, m, rng, nsteps, thresholds=(0,), allow_reset=True, blocksca
         m = rec.objs[k]
         active = m.is_active()
         r = rng.random()
-        if r < 0.30 and active:
+        if qbias and active and rng.random() < qbias and m.supports_block_quality():
+            # quality-heavy programs: mostly skip_to_quality on fresh copies / after small moves
+            if rng.random() < 0.5:
+                exec_op(rec, st, "copy", k, None, blockscan)
+                k = st["live"][-1]
+            exec_op(rec, st, "skipq", k, rng.choice(thresholds), blockscan)
+        elif r < 0.30 and active:
             exec_op(rec, st, "next", k, None, blockscan)
         elif r < 0.55 and active:
             cur = m.id()
